@@ -70,9 +70,9 @@ theorem b64Stream_end (left : Bytes) (fin : LineEnd) (ls : List Bytes) :
       · simp
       · exact ih _
 
-theorem crc_reject (s body : Bytes) (c : UInt32)
+theorem crc_reject (s body : Bytes) (c : Nat)
     (hcrc : (bodyLines s).2 = .eofCrc c) (hok : readBody s = (body, .eof)) :
-    c = crc24 crc24Init body &&& crc24Mask := by
+    c = crc24 crc24Init body % 16777216 := by
   unfold readBody at hok
   simp only [hcrc] at hok
   have hend := b64Stream_end [] (LineEnd.eofCrc c) (bodyLines s).1
@@ -82,7 +82,7 @@ theorem crc_reject (s body : Bytes) (c : UInt32)
   · simp only at h; subst h; simp at hok
   · simp only at h; subst h
     simp only at hok
-    by_cases hc : (c != crc24 crc24Init out &&& crc24Mask) = true
+    by_cases hc : (c != crc24 crc24Init out % 16777216) = true
     · simp [hc] at hok
     · simp only [hc, Bool.false_eq_true, ↓reduceIte, Prod.mk.injEq, and_true] at hok
       subst hok
